@@ -402,7 +402,10 @@ var (
 	NamePool    = []string{"a", "b", "ab", "ba", "aa", "a.b", "a b", "a-b", "c", "abc", "A", "0", "_a", ".h", "a\nb", "a=b", "b,a", "f", "l"}
 	ContentPool = []string{"", "a", "b", "ab", "ba", "abc", "bc", "c", "a\x00b", "a\n", "\n", "a/b", "../a", "aa", "\x00", "f", "fa"}
 	TargetPool  = []string{"a", "b", "ab", "../a", "../b", "a/b", "./a", ".", "..", "c/../a", "f", "../p/a"}
-	BigSizes    = []int{1000, 4095, 4096, 4097, 8192, 32767, 32768, 32769, 65536, 70001, 131073}
+	// NestedTargetPool is for symlinks inside a hashed directory: there the hash walk never follows the link,
+	// so absolute targets are legitimate members of the tree too (two of them share a long prefix).
+	NestedTargetPool = []string{"a", "b", "ab", "../a", "../b", "a/b", "./a", ".", "..", "c/../a", "f", "../p/a", "/nonexistent/a", "/nonexistent/b", "/nonexistent/a/b", "/a"}
+	BigSizes         = []int{1000, 4095, 4096, 4097, 8192, 32767, 32768, 32769, 65536, 70001, 131073}
 )
 
 // RandContent draws a file entry: mostly small literals, sometimes a big pseudo-random file
@@ -471,7 +474,7 @@ func RandDirTree(rng *rand.Rand, n, maxDepth int, pBig float64) Tree {
 		case x < 80:
 			t[p] = Ent{K: Dir}
 		default:
-			t[p] = Ent{K: Link, D: TargetPool[rng.Intn(len(TargetPool))]}
+			t[p] = Ent{K: Link, D: NestedTargetPool[rng.Intn(len(NestedTargetPool))]}
 		}
 	}
 	return t
